@@ -38,6 +38,7 @@ type Anchors struct {
 	Raw               *ssa.Function
 	IntTable, StTable map[string]*ssa.Function // handler tables
 	Errs              []string
+	Soft              []string // anchors that only some properties need (reported as information)
 }
 
 func (a *Anchors) miss(format string, args ...interface{}) {
@@ -46,16 +47,31 @@ func (a *Anchors) miss(format string, args ...interface{}) {
 
 func typeString(t types.Type) string { return types.TypeString(t, nil) }
 
-// uniqueField returns the only field of st whose type string equals ts.
+// uniqueField returns the only field of st - or of a struct embedded in it by
+// value, whose fields are promoted - whose type string equals ts.
 func uniqueField(st *types.Struct, ts string) *types.Var {
 	var r *types.Var
-	for i := 0; i < st.NumFields(); i++ {
-		if typeString(st.Field(i).Type()) == ts {
-			if r != nil {
-				return nil
+	n := 0
+	var walk func(s *types.Struct, depth int)
+	walk = func(s *types.Struct, depth int) {
+		for i := 0; i < s.NumFields(); i++ {
+			f := s.Field(i)
+			if typeString(f.Type()) == ts {
+				r = f
+				n++
 			}
-			r = st.Field(i)
+			if f.Embedded() && depth < 3 {
+				if es, ok := f.Type().Underlying().(*types.Struct); ok {
+					if nt, isN := f.Type().(*types.Named); !isN || nt.Obj().Pkg() == nil || nt.Obj().Pkg().Path() != "sync" {
+						walk(es, depth+1)
+					}
+				}
+			}
 		}
+	}
+	walk(st, 0)
+	if n != 1 {
+		return nil
 	}
 	return r
 }
@@ -317,7 +333,9 @@ func (p *Prog) ResolveAnchors() *Anchors {
 		})
 	}
 	if len(a.Members) < 3 {
-		a.miss("connection goroutines (members of the Conn WaitGroup): found %d", len(a.Members))
+		// not fatal for every property: the rules that need the connection goroutines have floors on them and fail
+		// closed individually; properties about the parser, the tracker or the command API do not depend on them
+		a.Soft = append(a.Soft, fmt.Sprintf("connection goroutines (members of the Conn WaitGroup): found %d", len(a.Members)))
 	}
 	a.IntTable = p.handlerTable("intHandlers")
 	a.StTable = p.handlerTable("stHandlers")
